@@ -31,6 +31,32 @@ impl<F: Fl> Target<F, F> for MhTarget<F> {
     }
 }
 
+/// the library's isotropic Gaussian shifted by a constant drift: q(y|x) = N(y; x + drift, std^2),
+/// an asymmetric proposal (the Hastings term does not cancel) with its exact log-density
+#[derive(Clone)]
+struct Drifted<F: Fl>
+where
+    rand_distr::StandardNormal: rand_distr::Distribution<F>,
+{
+    inner: IsotropicGaussian<F>,
+    drift: F,
+}
+impl<F: Fl> Proposal<F, F> for Drifted<F>
+where
+    rand_distr::StandardNormal: rand_distr::Distribution<F>,
+{
+    fn sample(&mut self, current: &[F]) -> Vec<F> {
+        self.inner.sample(current).into_iter().map(|v| v + self.drift).collect()
+    }
+    fn logp(&self, from: &[F], to: &[F]) -> F {
+        let shifted: Vec<F> = from.iter().map(|v| *v + self.drift).collect();
+        self.inner.logp(&shifted, to)
+    }
+    fn set_seed(self, seed: u64) -> Self {
+        Drifted { inner: self.inner.set_seed(seed), drift: self.drift }
+    }
+}
+
 fn finite_density(spec: &Spec, x: &[f64]) -> bool {
     x.iter().all(|v| v.is_finite()) && spec.logp(x).is_finite()
 }
@@ -48,13 +74,17 @@ pub struct MhCase {
     /// per step: 0 random k >= 1, 1 k = 1 (smallest positive u), 2 k = max
     pub steps: Vec<(u8, u64)>,
     pub data_seed: u64,
+    /// drift of the proposal in tenths of its width (0 = the symmetric library proposal)
+    #[serde(default)]
+    pub drift_tenths: i8,
 }
 
 fn mh_strategy() -> BoxedStrategy<MhCase> {
     let std = prop_oneof![2 => 0.05f64..1.0, 3 => 1.0f64..10.0, 2 => 10.0f64..200.0];
     let step = (prop_oneof![3 => Just(0u8), 2 => Just(1u8), 1 => Just(2u8)], any::<u64>());
-    bx((bounded_spec(), any::<bool>(), std, any::<u64>(), proptest::collection::vec(step, 1..50), any::<u64>()).prop_map(
-        |(spec, f32, std, prop_seed, steps, data_seed)| MhCase {
+    bx((bounded_spec(), any::<bool>(), std, any::<u64>(), proptest::collection::vec(step, 1..50), any::<u64>(), prop_oneof![1 => Just(0i8), 1 => -20i8..=20]).prop_map(
+        |(spec, f32, std, prop_seed, steps, data_seed, drift_tenths)| MhCase {
+            drift_tenths,
             spec,
             f32,
             std: R(std),
@@ -81,7 +111,11 @@ where
         spec: c.spec.clone(),
         _p: std::marker::PhantomData,
     };
-    let mut chain: MHMarkovChain<F, F, _, _> = MHMarkovChain::new(target, IsotropicGaussian::<F>::new(F::of(c.std.0)).set_seed(c.prop_seed), start);
+    let proposal = Drifted {
+        inner: IsotropicGaussian::<F>::new(F::of(c.std.0)).set_seed(c.prop_seed),
+        drift: F::of(c.std.0 * c.drift_tenths as f64 / 10.0),
+    };
+    let mut chain: MHMarkovChain<F, F, _, _> = MHMarkovChain::new(target, proposal, start);
     let kmax = (1u64 << F::BITS) - 1;
     let mut bad_candidates = 0;
     for (i, (sel, kraw)) in c.steps.iter().enumerate() {
@@ -116,6 +150,7 @@ where
         cov.evals(1);
     }
     cov.class(c.spec.name());
+    cov.class(if c.drift_tenths == 0 { "symmetric-proposal" } else { "asymmetric-proposal(drift)" });
     cov.class_n("candidates-out-of-support", bad_candidates);
     if bad_candidates > 0 {
         cov.nontrivial_u64(fingerprint(c));
